@@ -5,15 +5,16 @@
 # dependencies point there. Used while other jobs build from /repo. One at a time.
 set -u
 patch=$(realpath "$1"); prop=$2; tier=${3:-quick}
-wt=/var/tmp/seedwt; simc=/var/tmp/seedsim
+# SEEDWT_ID selects a second, independent set of scratch directories (parallel use)
+id=${SEEDWT_ID:-}; wt=/var/tmp/seedwt$id; simc=/var/tmp/seedsim$id
 if [ -d $wt ]; then git -C $wt checkout -q -- . && git -C $wt clean -fdq; git -C $wt checkout -q --detach $(git -C /repo rev-parse HEAD); else git -C /repo worktree add -q --detach $wt HEAD || exit 3; fi
 git -C $wt apply "$patch" || { echo "patch does not apply"; exit 3; }
 mkdir -p $simc
 # committed sources only (the working tree may be mid-edit)
-rm -rf /var/tmp/seedsim-src && mkdir -p /var/tmp/seedsim-src && git -C /verif archive HEAD sim | tar -x -C /var/tmp/seedsim-src && rsync -a --delete --exclude target /var/tmp/seedsim-src/sim/ $simc/
+rm -rf /var/tmp/seedsim-src$id && mkdir -p /var/tmp/seedsim-src$id && git -C /verif archive HEAD sim | tar -x -C /var/tmp/seedsim-src$id && rsync -a --delete --exclude target /var/tmp/seedsim-src$id/sim/ $simc/
 find $simc -name Cargo.toml -exec sed -i "s#/repo/#$wt/#g" {} +
 grep -rl '"/repo/' $simc --include=*.rs | xargs -r sed -i "s#\"/repo/#\"$wt/#g"
-export VERIF_SIM_DIR=$simc VERIF_EVIDENCE_DIR=/dev/shm/seedtest-evidence VERIF_REPLAY_DIR=/dev/shm/seedtest-replays
+export VERIF_SIM_DIR=$simc VERIF_EVIDENCE_DIR=/dev/shm/seedtest-evidence$id VERIF_REPLAY_DIR=/dev/shm/seedtest-replays$id
 mkdir -p $VERIF_EVIDENCE_DIR $VERIF_REPLAY_DIR
 cd /verif
 out=$(./check $prop $tier 2>&1 | grep -v conda | tail -5)
